@@ -152,7 +152,7 @@ class BinningBase:
         rtol, atol : numpy tolerance parameters
         """
         return np.allclose(
-            np.diff(self.bins[1] - self.bins[0]), 0.0, rtol=rtol, atol=atol
+            np.diff(self.bins[:, 1] - self.bins[:, 0]), 0.0, rtol=rtol, atol=atol
         )
 
     def is_consecutive(self, rtol: float = 1.0e-5, atol: float = 1.0e-8) -> bool:
@@ -337,7 +337,7 @@ class BinningBase:
             return FixedWidthBinning(
                 min=self.bins[0][0],
                 bin_count=self.bin_count,
-                bin_width=self.bins[1] - self.bins[0],
+                bin_width=self.bins[0][1] - self.bins[0][0],
             )
         else:
             raise ValueError(
